@@ -4,6 +4,7 @@
 use crate::bytes::JPlan;
 use crate::gen::*;
 use crate::medium::*;
+use crate::node::Kind;
 use crate::oracle::*;
 use crate::registry::*;
 use crate::rng::mix64;
@@ -25,10 +26,11 @@ pub fn build_config() -> String {
     }
 }
 
-const FAULT_KINDS: [&str; 19] = [
+const FAULT_KINDS: [&str; 21] = [
     "W_ERR_TRANSIENT", "W_ERR_PERMANENT", "R_REORDER", "R_DROP", "R_UNKNOWN", "R_DUP", "R_ERR", "R_TRUNC",
     "BYTES_W_SHORT", "BYTES_W_EINTR", "BYTES_W_IOERR_TRANSIENT", "BYTES_W_IOERR_PERMANENT", "BYTES_R_SHORT",
     "BYTES_R_EINTR", "BYTES_R_IOERR", "BYTES_R_TRUNC", "BYTES_R_FLIP", "W_PANIC", "R_PANIC",
+    "R_NULL_VALUE", "BYTES_R_NULL_VALUE",
 ];
 
 /// One run of either lane.
@@ -90,7 +92,9 @@ const P_RERR_AFTER: usize = 22;
 const P_FRAMING_KEY: usize = 23; // 3 framings x 6 key forms
 const P_ASSERT: usize = 41; // 11
 const P_JSON: usize = 52; // reader x8, escaped keys
-const P_TYPE: usize = 61;
+const P_WIDE: usize = 61; // event, bytes
+const P_FLAT: usize = 63; // other types, Decomposed
+const P_TYPE: usize = 65;
 
 const PERMS3: [[u8; 3]; 6] = [[0, 1, 2], [0, 2, 1], [1, 0, 2], [1, 2, 0], [2, 0, 1], [2, 1, 0]];
 
@@ -129,6 +133,10 @@ impl ProbeSpace {
         names.push("bytes_behind_serde_untagged".into());
         names.push("bytes_inside_containers".into());
         names.push("bytes_escaped_keys".into());
+        names.push("integer_beyond_64_bits_fault_free_round_trip".into());
+        names.push("bytes_integer_beyond_64_bits_fault_free_round_trip".into());
+        names.push("medium_without_structure_fault_free_round_trip".into());
+        names.push("medium_without_structure_decomposed_read_judged".into());
         assert_eq!(names.len(), P_TYPE);
         for e in reg {
             names.push(format!("fault_free_round_trip_{}", e.name));
@@ -352,6 +360,10 @@ impl Agg {
                 self.fired[fault_index(f.kind_name())] += 1;
             }
         }
+        if o.nulled {
+            nf += 1;
+            self.fired[19 + is_json as usize] += 1;
+        }
         let all3 = 0b111u32;
         let mut seen_perm = false;
         for f in &o.rfired {
@@ -391,6 +403,15 @@ impl Agg {
         }
         self.runs_with_fault[nf.min(3)] += 1;
         if let AnyPlan::Event(p) = plan {
+            if p.medium.flat() && nf == 0 && o.read_ok.is_some() && o.failure.is_none() {
+                if e.is_dec {
+                    if o.evaluated[assert_index("A9")] > 0 {
+                        self.probes[P_FLAT + 1] += 1;
+                    }
+                } else if o.read_ok == Some(true) && o.evaluated[assert_index("A1")] > 0 {
+                    self.probes[P_FLAT] += 1;
+                }
+            }
             self.probes[P_FRAMING_KEY + (p.medium.framing as usize) * 6 + p.medium.key_form as usize] += 1;
         }
 
@@ -419,6 +440,18 @@ impl Agg {
         }
         if nf == 0 && !has_patch && o.evaluated[assert_index("A1")] > 0 && o.failure.is_none() && o.read_ok == Some(true) {
             self.probes[P_TYPE + ti + if is_json { n_types } else { 0 }] += 1;
+            let gen: &[u64] = match plan {
+                AnyPlan::Event(p) => &p.gen,
+                AnyPlan::Json(p) => &p.gen,
+                AnyPlan::Session(_) => &[],
+            };
+            let beyond = e.gen_kinds.iter().zip(gen.iter()).any(|((k, _), b)| {
+                matches!(k, Kind::I128 | Kind::U128)
+                    && crate::node::wide::try_decode(*b).map(|v| if *k == Kind::I128 { i64::try_from(v).is_err() } else { u64::try_from(v as u128).is_err() }).unwrap_or(false)
+            });
+            if beyond {
+                self.probes[P_WIDE + is_json as usize] += 1;
+            }
         }
     }
 }
